@@ -56,8 +56,13 @@ CHECKS = {
  "C06": dict(
    text="Theorems on the MemoryFS model (calls in `covered`): the only non-fs.errors outcome is the documented ValueError for an "
         "invalid mode; every error class is admissible for the reference in that state (its documented condition holds); a "
-        "failed call leaves the tree as it was. " + CORR + "Failure-biased histories on 13 backends: class admissible for the "
-        "reference in the backend's pre-state, str()/repr() render, snapshot unchanged for single-resource calls.",
+        "failed call leaves the tree as it was. For the walker-based calls makedirs/copydir/movedir (FS/PropsWalk.v, corollaries of "
+        "the refinement under resolvable paths and non-degenerate source/destination): they never crash or diverge, every error "
+        "class is admissible, a call rejected by its argument checks changes nothing (each argument check named), a failed "
+        "makedirs leaves no intermediate directory, and the only failure that may leave something behind is a file/directory "
+        "clash met while merging (characterised exactly). " + CORR + "Failure-biased histories on 13 backends: class admissible "
+        "for the reference in the backend's pre-state, str()/repr() render, snapshot unchanged for single-resource calls; a call "
+        "the reference rejects must not return normally.",
    note=TB + "Admissible classes are those of FS/Ref.v (DESIGN.md C01 error-precedence principle). errno translation of the real "
         "kernel is exercised, not modelled.",
    technique="Coq proof (corollaries of the refinement) + failing-call differential against the reference",
@@ -131,18 +136,24 @@ CHECKS = {
         "mount order whose point is a component prefix, path made relative ('/ab' never routed to '/a'); a mount inside an "
         "existing mount is refused; MultiFS's iterate order is the members sorted by (priority, insertion index) descending "
         "(permutation, sortedness, head characterisation), reads go to the first holder, listings are de-duplicated unions. " + CORR +
-        "Recording proxy members: call logs and member trees vs the extracted routing model.",
+        "Recording proxy members: call logs and member trees vs the extracted routing model; 15 spelling classes of the mount-"
+        "point argument x 15 of the call path x overlap shapes (routed member must receive the call, others untouched); MultiFS: "
+        "every public method by reflection x member states (path/ancestors only in the write member, only in a non-write member, "
+        "in both, nowhere) for 2 and 3 members against the union and the write member's twin.",
    note=TB + "Member filesystems are MemoryFS behind recording WrapFS proxies; derived calls may touch every member their paths "
         "route to.",
    technique="Coq proof (prefix/sorting lemmas) + recording-proxy correspondence",
    ref="DESIGN.md §4 C17, §9"),
  "C18": dict(
    text="Theorems on the close model: a checked method of a closed object raises FilesystemClosed at any nesting depth; a write-"
-        "mode archive is written exactly once whatever the number of close() calls (and the failing-write behaviour is stated as "
-        "found); members closed iff auto_close; table theorem on the regenerated dispatch table (check() is the base class's "
+        "mode archive is written exactly once whatever the number of close() calls, also when that write fails (close is final: "
+        "the failure is reported once, later close() calls return normally and write nothing); members closed iff auto_close; table theorem on the regenerated dispatch table (check() is the base class's "
         "everywhere); table theorem on the check()-placement table regenerated on every run from /repo's source by an ast "
         "translator (every public data/metadata method defined in a filesystem class calls check()/validatepath(), directly or "
-        "through a private method that does, or only calls methods on self/super). Reflection sweep: every public data/metadata method after close (explicit, double, with-block) on 13 "
+        "through a private method that does, or only calls methods on self/super). Reflection sweep: every public callable of the concrete object (FS interface and class-specific ones such as write_zip, "
+        "write_tar, add_fs, mount, clean) after close (explicit, double, with-block) on 15 memory/OSFS constructions and 30 "
+        "archive/TempFS constructions; close() failing midway (target removed / a directory / file object closed or failing) "
+        "must be final; on 13 "
         "constructions with storage snapshots; finaliser probes (archives, TempFS, gc).",
    note=TB + "The ast translator (harness/h_reflect.py check_table) is trusted for the placement table; that a check() call "
         "comes before any effect inside a method body is exercised by the sweep, not proved; gc-driven close is exercised only.",
